@@ -136,30 +136,38 @@ def fileRename (fs : Fs) (frm to : Bytes) (failIfExists : Bool) : Fs × Bool :=
 inductive SfFault | none | fail | half
 deriving DecidableEq, Repr
 
-/-- File::copy(src, destination, failIfExists) (repaired: an incomplete destination is removed);
-    second component of the result: did the injected fault fire -/
+/-- number of bytes the (possibly faulted) sendfile is asked to transfer -/
+def copyCount (fault : SfFault) (size : Nat) : Nat :=
+  match fault with
+  | .none => size
+  | .fail => 0
+  | .half => size / 2
+
+/-- what the (possibly faulted) sendfile returns to File::copy -/
+def copySent (fault : SfFault) (r : Except Errno Nat) : Option Nat :=
+  match fault, r with
+  | .fail, _ => Option.none
+  | _, .ok n => some n
+  | _, .error _ => Option.none
+
+/-- the data phase of File::copy: sendfile, and on a short count remove the destination again -/
+def copyData (fs1 : Fs) (dest fd : Fd) (size : Nat) (dst : Bytes) (fault : SfFault) : Fs × Bool × Bool :=
+  let r := sysSendfile fs1 dest fd (copyCount fault size)
+  if copySent fault r.2.2.2 ≠ some size then ((sysUnlink r.1 dst).1, false, fault ≠ .none)
+  else (r.1, true, fault ≠ .none)
+
+/-- File::copy(src, destination, failIfExists) (repaired: a directory source is refused before the
+    destination is touched; an incomplete destination is removed);
+    third component of the result: did the injected fault fire -/
 def fileCopy (fs : Fs) (src dst : Bytes) (failIfExists : Bool) (fault : SfFault) : Fs × Bool × Bool :=
   match sysOpen fs src { acc := .rdonly } with
   | (fs0, .error _) => (fs0, false, false)
   | (fs0, .ok fd) =>
     if fd.isDir = true then (fs0, false, false)      -- repaired: fstat + S_ISDIR before the destination is touched
     else
-    let size := (fileData fs0 fd.path).length
-    match sysOpen fs0 dst { acc := .wronly, creat := true, excl := failIfExists, trunc := true } with
-    | (fs1, .error _) => (fs1, false, false)
-    | (fs1, .ok dest) =>
-      let count := match fault with
-        | .none => size
-        | .fail => 0
-        | .half => size / 2
-      let fired := fault ≠ .none
-      let (fs2, _, _, r) := sysSendfile fs1 dest fd count
-      let sent : Option Nat := match fault, r with
-        | .fail, _ => Option.none
-        | _, .ok n => some n
-        | _, .error _ => Option.none
-      if sent ≠ some size then ((sysUnlink fs2 dst).1, false, fired)
-      else (fs2, true, fired)
+      match sysOpen fs0 dst { acc := .wronly, creat := true, excl := failIfExists, trunc := true } with
+      | (fs1, .error _) => (fs1, false, false)
+      | (fs1, .ok dest) => copyData fs1 dest fd (fileData fs0 fd.path).length dst fault
 
 /-- File::exists (lstat) -/
 def fileExists (fs : Fs) (path : Bytes) : Bool := isOk (sysStat fs path false)
